@@ -40,9 +40,17 @@ type Rewrite struct {
 	Subst [][2]string `json:"subst"`
 }
 
+// Pregen: code generated from the working tree before the encoding is built (C13: the Go code
+// generator of /repo is run on the schema family and its output joins the overlay).
+type Pregen struct {
+	Cmd string `json:"cmd"` // package (below the module root, in the overlay) whose main takes the output dir
+	Out string `json:"out"` // package path (below the module root) the generated files are mapped to
+}
+
 type PlanProperty struct {
 	Rewrites    []Rewrite     `json:"rewrites"`
 	Race        bool          `json:"race"` // build the native replay binary with the race detector
+	Pregen      *Pregen       `json:"pregen"`
 	Level       string        `json:"level"`
 	Harnesses   []PlanHarness `json:"harnesses"`
 	Assumptions []string      `json:"assumptions"`
